@@ -7,6 +7,7 @@ import (
 	"context"
 	"fmt"
 	"io"
+	"math"
 	"net/http"
 	"net/http/httptest"
 	"runtime"
@@ -23,11 +24,12 @@ import (
 )
 
 type c07Case struct {
-	Side   string // client-ss (server-streaming reply) | client-cs (single-response reply) | server (request body of a bidi method)
-	Body   []byte
-	Abrupt bool   // the body ends with io.ErrUnexpectedEOF instead of a clean io.EOF
-	Chop   int    `json:",omitempty"` // the body is delivered at most Chop bytes per Read (0 = no limit)
-	Origin string `json:",omitempty"` // how the body was produced (for the histogram)
+	Side    string // client-ss (server-streaming reply) | client-cs (single-response reply) | server (request body of a bidi method)
+	Body    []byte
+	Abrupt  bool   // the body ends with io.ErrUnexpectedEOF instead of a clean io.EOF
+	MaxRecv bool   `json:",omitempty"` // client side: the caller passes grpc.MaxCallRecvMsgSize(MaxInt32)
+	Chop    int    `json:",omitempty"` // the body is delivered at most Chop bytes per Read (0 = no limit)
+	Origin  string `json:",omitempty"` // how the body was produced (for the histogram)
 }
 
 // endReader yields b and then err (io.EOF or io.ErrUnexpectedEOF).
@@ -93,7 +95,11 @@ func c07Client(c *c07Case) *c07Obs {
 				obs.Panic = fmt.Sprintf("%v\n%s", r, debug.Stack())
 			}
 		}()
-		cs, err := ch.NewStream(ctx, streamDescOf(kind), methodOf(kind))
+		var copts []grpc.CallOption
+		if c.MaxRecv {
+			copts = append(copts, grpc.MaxCallRecvMsgSize(math.MaxInt32), grpc.MaxCallSendMsgSize(math.MaxInt32))
+		}
+		cs, err := ch.NewStream(ctx, streamDescOf(kind), methodOf(kind), copts...)
 		if err != nil {
 			obs.Final = observeErr(err)
 			return
@@ -325,6 +331,7 @@ func genC07Body(t *rapid.T, forServer bool) ([]byte, string) {
 func genC07(t *rapid.T) c07Case {
 	c := c07Case{Side: rapid.SampledFrom([]string{"client-ss", "client-ss", "client-cs", "server", "server"}).Draw(t, "side"), Abrupt: rapid.IntRange(0, 3).Draw(t, "abrupt") == 0}
 	c.Chop = rapid.SampledFrom([]int{0, 0, 0, 1, 2, 3, 5, 7}).Draw(t, "chop")
+	c.MaxRecv = c.Side != "server" && rapid.IntRange(0, 3).Draw(t, "maxrecv") == 0
 	c.Body, c.Origin = genC07Body(t, c.Side == "server")
 	return c
 }
